@@ -58,6 +58,28 @@ func init() {
 		"verifNondetStringN": func(fr *frame, a []value) value {
 			return fr.i.nondetBytes(a[0].(string), a[1].(int))
 		},
+		"verifNondetByteIn": func(fr *frame, a []value) value {
+			// a byte constrained to a small alphabet; the domain is remembered so that
+			// comparisons with bytes outside it are decided without the solver
+			i := fr.i
+			alpha := a[1].(string)
+			v := i.w.nondet(a[0].(string), types.Uint8)
+			sv, ok := v.(symVal)
+			if !ok {
+				return v
+			}
+			c := i.ctx()
+			var ors []*sym.Term
+			for k := 0; k < len(alpha); k++ {
+				ors = append(ors, c.Eq(sv.t, c.BVLit(uint64(alpha[k]), 8)))
+			}
+			i.w.assume(i.boolSym(c.Or(ors...)))
+			if i.w.domains == nil {
+				i.w.domains = map[*sym.Term]string{}
+			}
+			i.w.domains[sv.t] = alpha
+			return v
+		},
 		"verifChoose": func(fr *frame, a []value) value { return fr.i.w.choose(a[0].(string), a[1].(int)) },
 		"verifAssume": func(fr *frame, a []value) value { fr.i.w.assume(a[0]); return nil },
 		"verifAssert": func(fr *frame, a []value) value {
@@ -147,6 +169,12 @@ var interpretable = map[string]bool{
 	"github.com/go-openapi/jsonpointer": true,
 }
 
+// interpretableFuncs: single functions of otherwise non-interpreted packages.
+var interpretableFuncs = map[string]bool{
+	"(*fmt.wrapError).Unwrap": true, "(*fmt.wrapError).Error": true,
+	"(*fmt.wrapErrors).Unwrap": true, "(*fmt.wrapErrors).Error": true,
+}
+
 // natives are real Go functions called through reflection when every
 // argument is concrete.
 var natives = map[string]reflect.Value{}
@@ -174,7 +202,7 @@ func (i *interpreter) foreignCall(fr *frame, fn *ssa.Function, name string, args
 		}
 	}
 	pkg := fn.Pkg.Pkg.Path()
-	if interpretable[pkg] && fn.Blocks != nil {
+	if (interpretable[pkg] || interpretableFuncs[name]) && fn.Blocks != nil {
 		return nil, false
 	}
 	if fn.Blocks == nil {
